@@ -149,6 +149,10 @@ def make_policy(p: dict | None, step_name: str) -> Any:
         inner = mk_retry_policy(stop=RP.stop_after_delay(p["d"]), wait=RP.wait_fixed(p.get("wait", 1)))
     elif kind == "chain":
         inner = mk_retry_policy(stop=RP.stop_after_attempt(p["n"]), wait=RP.wait_chain(*[RP.wait_fixed(w) for w in p["waits"]]))
+    elif kind == "chain_exp":
+        # a chain whose last strategy depends on the attempt number: fixed `first`, then 2**attempts (capped at 64)
+        inner = mk_retry_policy(stop=RP.stop_after_attempt(p["n"]),
+                                wait=RP.wait_chain(RP.wait_fixed(p["first"]), RP.wait_exponential(multiplier=1, exp_base=2, max=64)))
     elif kind == "legacy":
         inner = RP.ConstantDelayRetryPolicy(maximum_attempts=p["n"], delay=p.get("wait", 0))
     elif kind == "raises":
@@ -232,6 +236,10 @@ async def _body(run: Run, sdef: dict, ctx: Context, ev: Any) -> Any:
         return await _interp(run, sdef, ctx, ev, rn)
     except asyncio.CancelledError:
         status = "cancelled"
+        oc = next((a for a in sdef["script"] if a[0] == "on_cancel_stream"), None)
+        if oc is not None:
+            # a step that reports from its cancellation path (finally / except CancelledError)
+            ctx.write_event_to_stream(ET.mk(oc[1], run.fresh(), None))
         raise
     except BaseException as e:
         status = "raise:" + type(e).__name__
@@ -301,6 +309,8 @@ async def _interp(run: Run, sdef: dict, ctx: Context, ev: Any, rn: int) -> Any:
             await asyncio.sleep(act[1])
         elif op == "yield":
             await asyncio.sleep(0)
+        elif op == "on_cancel_stream":
+            pass  # marker: see _body's CancelledError branch
         elif op == "send":
             if run.spec.get("det_uids"):
                 nsent = sum(1 for a in sdef["script"][: sdef["script"].index(act)] if a[0] == "send")
@@ -492,6 +502,7 @@ def run_spec(spec: dict, seed: int, replay_actions: list[int] | None = None, max
     rng = random.Random(seed)
     run = Run(spec, rng, replay_actions)
     _ACTIVE.append(run)
+    ET.EQ_IGNORE_UID[0] = bool(spec.get("eq_events"))
     try:
         def hook_factory(loop: VLoop):
             def hook() -> bool:
@@ -569,6 +580,7 @@ def run_spec(spec: dict, seed: int, replay_actions: list[int] | None = None, max
             run.trace.outcome = ("deadlock", None)
     finally:
         _ACTIVE.pop()
+        ET.EQ_IGNORE_UID[0] = False
     run.trace.remaining_externals = list(run.externals)  # type: ignore[attr-defined]
     return run.trace
 
